@@ -60,4 +60,4 @@ let () =
        print_newline ()
      done
    with End_of_file -> ());
-  flush stdout
+  Stdlib.flush stdout
